@@ -659,6 +659,17 @@ func (e *Engine) specFunc(y *ECall, env *evalEnv) (Val, bool) {
 		return Val{S: app("numval16", arg(0).S), T: specInt}, true
 	case "zerotime":
 		return Val{S: timeZeroNs, T: specInt}, true
+	case "get0":
+		// get0(store, key): the stored value, or the zero value when the key is absent (what layer code uses after ErrNotFound)
+		if len(y.Args) == 2 {
+			m := arg(0)
+			if m.G != nil && m.G.kind == "map" {
+				k := e.specKey(arg(1), env)
+				dom := app("select", e.heap(m.GSt, m.G.name+"_d", e.heapSorts[m.G.name+"_d"]), k)
+				return Val{S: ite(dom, app("select", m.S, k), e.zero(m.G.vt)), T: m.G.vt}, true
+			}
+		}
+		return e.evalErr("get0(store, key) needs a map store"), true
 	case "coins":
 		return Val{S: e.coinsTotal(env.st, arg(0)), T: specInt}, true
 	case "is_err":
@@ -672,6 +683,9 @@ var bvT = types.NewNamed(types.NewTypeName(0, nil, "specbv", nil), types.Typ[typ
 
 func (e *Engine) specKey(v Val, env *evalEnv) string {
 	if v.T != nil && isByteSlice(v.T) {
+		if v.Log {
+			return e.bvOf(env.logState(), v)
+		}
 		return e.bvOf(env.st, v)
 	}
 	return v.S
